@@ -570,6 +570,14 @@ acquire_stop(struct AcquireRuntime* self_)
         // already been released, flush it. This takes at most 2 iterations.
         if (video->monitor.reader.id) {
             size_t nbytes;
+            // The acquisition is over. If the client still holds a mapped
+            // region, release it first: mapping a reader that is still mapped
+            // puts it into a sticky error state and every later
+            // acquire_map_read() would fail.
+            if (video->monitor.reader.state == ChannelState_Mapped) {
+                channel_read_unmap(
+                  &video->sink.in, &video->monitor.reader, (size_t)-1);
+            }
             do {
                 struct slice slice =
                   channel_read_map(&video->sink.in, &video->monitor.reader);
